@@ -75,6 +75,7 @@ def judge (op : Op) (args : List Expr) (r : Expr) : Verdict :=
     | none =>
       if undefinedOp .pow [a, .int n] then .skip "undefined-zero-base" else
       match firstErr r with
+      | some .expTooLarge => .skip "result-exponent-beyond-cost-guard"
       | some e => .fail ("result-outside-fragment-" ++ e.toString)
       | none => if accepts .pow [a, .int n] r then .ok else .fail "value-differs"
   | .pow, _ => .skip "non-integer-exponent"
@@ -84,6 +85,7 @@ def judge (op : Op) (args : List Expr) (r : Expr) : Verdict :=
     | none =>
       if undefinedOp op args then .skip "undefined-zero-divisor" else
       match firstErr r with
+      | some .expTooLarge => .skip "result-exponent-beyond-cost-guard"
       | some e => .fail ("result-outside-fragment-" ++ e.toString)
       | none => if accepts op args r then .ok else .fail "value-differs"
 
